@@ -308,7 +308,7 @@ META = dict(
                     "framing-activate_bit_timing", "framing-store_configuration", "framing-inquire_node_id",
                     "framing-inquire_lss_address", "framing-selective", "reply-ok", "reply-error", "reply-silence",
                     "fastscan", "fastscan-none", "after-scan", "late-reply"],
-    limits=dict(quick=dict(max_decisions=50000), thorough=dict(max_decisions=100000)),
+    limits=dict(quick=dict(max_decisions=50000), thorough=dict(max_decisions=100000, crosscheck_every=500, crosscheck_max=20)),
     validate_every=dict(quick=5, thorough=40),
     max_validate=dict(quick=8, thorough=8),
 )
